@@ -78,7 +78,10 @@ Definition spec_query03 (o : qobs) : bool :=
   end.
 
 Definition spec03 (c : case) : bool :=
-  match c with CRun xs ws scripts prog qs => forallb spec_query03 qs end.
+  match c with
+  | CRun xs ws scripts prog qs => forallb spec_query03 qs
+  | CFun _ _ _ _ _ => true
+  end.
 Definition spec := spec03.
 
 (** Non-trivial: the program contains at least two of {cache, redirect, a
@@ -93,5 +96,6 @@ Definition nontrivial03 (c : case) : bool :=
            + b2n (existsb (fun d => match d with DHosts _ | DBlackHole _ _ | DArbitrary _ => true | _ => false end) xs)
            + b2n (existsb (fun d => match d with DForward _ => true | _ => false end) xs))
     && existsb (fun o => match o with QObs _ _ _ _ (OAnswer _) (Some _) _ => true | _ => false end) qs
+  | CFun _ _ _ _ _ => false
   end.
 Definition nontrivial := nontrivial03.
